@@ -865,4 +865,104 @@ theorem parseFuel_print_compact (v : Value) (hw : v.wf = true) (fuel : Nat) (hf 
     rw [skipMulti_cons f1]
     simp [he, Res.map]
 
+/-! ## fixed point -/
+
+
+mutual
+theorem Value.norm_norm : (v : Value) → v.norm.norm = v.norm
+  | .extant => rfl
+  | .int k n => by simp [Value.norm]
+  | .float f => rfl
+  | .bool b => rfl
+  | .text s => rfl
+  | .data bs => rfl
+  | .record a i => by simp [Value.norm, Attrs.norm_norm a, Items.norm_norm i]
+theorem Attrs.norm_norm : (a : Attrs) → a.norm.norm = a.norm
+  | .nil => rfl
+  | .cons n v r => by simp [Attrs.norm, Value.norm_norm v, Attrs.norm_norm r]
+theorem Items.norm_norm : (i : Items) → i.norm.norm = i.norm
+  | .nil => rfl
+  | .val v r => by simp [Items.norm, Value.norm_norm v, Items.norm_norm r]
+  | .slot k v r => by simp [Items.norm, Value.norm_norm k, Value.norm_norm v, Items.norm_norm r]
+end
+
+theorem Value.norm_isPrim (v : Value) : v.norm.isPrim = v.isPrim := by cases v <;> rfl
+theorem Value.norm_extant_iff (v : Value) : v.norm = .extant ↔ v = .extant := by cases v <;> simp [Value.norm]
+theorem Attrs.norm_isEmpty (a : Attrs) : a.norm.isEmpty = a.isEmpty := by cases a <;> rfl
+
+theorem Items.norm_isSoleExtant (i : Items) : i.norm.isSoleExtant = i.isSoleExtant := by
+  cases i with
+  | nil => rfl
+  | slot k v r => rfl
+  | val v r => cases r <;> cases v <;> rfl
+
+theorem Items.norm_isSolePrim (i : Items) : i.norm.isSolePrim = i.isSolePrim := by
+  cases i with
+  | nil => rfl
+  | slot k v r => rfl
+  | val v r => cases r <;> simp [Items.norm, Items.isSolePrim, Value.norm_isPrim]
+
+theorem norm_isAttrSoleSlot (v : Value) : isAttrSoleSlot v.norm = isAttrSoleSlot v := by
+  cases v with
+  | record a i =>
+    cases a with
+    | nil => rfl
+    | cons n w r =>
+      cases i with
+      | nil => rfl
+      | val _ _ => rfl
+      | slot k x t => cases t <;> rfl
+  | _ => rfl
+
+theorem norm_isBareAttr (v : Value) : isBareAttr v.norm = isBareAttr v := by
+  cases v with
+  | record a i => cases a <;> cases i <;> rfl
+  | _ => rfl
+
+mutual
+theorem Value.wf_norm : (v : Value) → v.norm.wf = v.wf
+  | .extant => rfl
+  | .int k n => rfl
+  | .float f => rfl
+  | .bool b => rfl
+  | .text s => rfl
+  | .data bs => rfl
+  | .record a i => by
+    simp [Value.norm, Value.wf, Attrs.wf_norm a, Items.wf_norm i, Items.norm_isSoleExtant, Attrs.norm_isEmpty,
+      Items.norm_isSoleVal, Items.norm_isSolePrim]
+theorem Attrs.wf_norm : (a : Attrs) → a.norm.wf = a.wf
+  | .nil => rfl
+  | .cons n v r => by simp [Attrs.norm, Attrs.wf, Value.wf_norm v, Attrs.wf_norm r, norm_isAttrSoleSlot]
+theorem Items.wf_norm : (i : Items) → i.norm.wf = i.wf
+  | .nil => rfl
+  | .val v r => by simp [Items.norm, Items.wf, Value.wf_norm v, Items.wf_norm r]
+  | .slot k v r => by
+    simp [Items.norm, Items.wf, Value.wf_norm k, Value.wf_norm v, Items.wf_norm r, norm_isBareAttr]
+end
+
+mutual
+theorem Value.size_norm : (v : Value) → v.norm.size = v.size
+  | .extant => rfl
+  | .int k n => rfl
+  | .float f => rfl
+  | .bool b => rfl
+  | .text s => rfl
+  | .data bs => rfl
+  | .record a i => by simp [Value.norm, Value.size, Attrs.size_norm a, Items.size_norm i]
+theorem Attrs.size_norm : (a : Attrs) → a.norm.size = a.size
+  | .nil => rfl
+  | .cons n v r => by simp [Attrs.norm, Attrs.size, Value.size_norm v, Attrs.size_norm r]
+theorem Items.size_norm : (i : Items) → i.norm.size = i.size
+  | .nil => rfl
+  | .val v r => by simp [Items.norm, Items.size, Value.size_norm v, Items.size_norm r]
+  | .slot k v r => by simp [Items.norm, Items.size, Value.size_norm k, Value.size_norm v, Items.size_norm r]
+end
+
+/-- One cycle reaches a fixed point: parsing the print of what the first cycle gave returns it unchanged. -/
+theorem fixpoint_compact (v : Value) (hw : v.wf = true) (fuel : Nat) (hf : 6 * v.size ≤ fuel) :
+    parseFuel fuel (print .compact v.norm) = .ok v.norm := by
+  have := parseFuel_print_compact v.norm (by rw [Value.wf_norm]; exact hw) fuel (by rw [Value.size_norm]; exact hf)
+  rwa [Value.norm_norm] at this
+
+
 end SwimVerif.Recon
